@@ -399,7 +399,15 @@ func VerifC15NamedKeyPath() {
 // of the mapped keys; every chunk is mapped on its own and the successor sees, under each target key, the
 // concatenation (in chunk order) of the values its source key carried; a key that never appears is an ordinary
 // error or an absent target, never a panic.
-func VerifC15StreamChunks() {
+func VerifC15StreamChunks() { c15StreamChunks(false) }
+
+// the same with a typed target (string fields of a struct): every mapping gets a run-time checker, which must cope
+// with chunks that carry only some of the mapped keys
+func VerifC15StreamChunksTyped() { c15StreamChunks(true) }
+
+type c15FG struct{ F, G string }
+
+func c15StreamChunks(typed bool) {
 	ctx := context.Background()
 	vcfg("fifo", 1)
 	vcfg("selectfirst", 1)
@@ -414,6 +422,9 @@ func VerifC15StreamChunks() {
 		for k, key := range keys {
 			if sub&(1<<k) != 0 {
 				v := vsymStr("v_" + key + string(rune('0'+i)))
+				if typed {
+					vassume(v != "") // the typed consumer cannot tell an empty field from an absent one
+				}
 				c[key] = v
 				want[key] += v
 				seen[key] = true
@@ -427,10 +438,37 @@ func VerifC15StreamChunks() {
 	wf.AddLambdaNode("src", StreamableLambda(func(ctx context.Context, in int) (*schema.StreamReader[map[string]any], error) {
 		return schema.StreamReaderFromArray(chunks), nil
 	})).AddInput(START)
-	wf.AddLambdaNode("dst", InvokableLambda(func(ctx context.Context, in map[string]any) (map[string]any, error) {
-		got = in
-		return in, nil
-	})).AddInput("src", MapFields("A", "F"), MapFields("B", "G"))
+	if typed {
+		wf.AddLambdaNode("dst", CollectableLambda(func(ctx context.Context, sr *schema.StreamReader[c15FG]) (map[string]any, error) {
+			acc := map[string]any{}
+			for i := 0; i < 8; i++ {
+				c, e := sr.Recv()
+				if e == io.EOF {
+					break
+				}
+				if e != nil {
+					sr.Close()
+					return nil, e
+				}
+				if c.F != "" {
+					f, _ := acc["F"].(string)
+					acc["F"] = f + c.F
+				}
+				if c.G != "" {
+					g, _ := acc["G"].(string)
+					acc["G"] = g + c.G
+				}
+			}
+			sr.Close()
+			got = acc
+			return acc, nil
+		})).AddInput("src", MapFields("A", "F"), MapFields("B", "G"))
+	} else {
+		wf.AddLambdaNode("dst", InvokableLambda(func(ctx context.Context, in map[string]any) (map[string]any, error) {
+			got = in
+			return in, nil
+		})).AddInput("src", MapFields("A", "F"), MapFields("B", "G"))
+	}
 	wf.End().AddInput("dst")
 	r, err := wf.Compile(ctx)
 	vassert(err == nil, "workflow with map-key mappings compiles")
@@ -493,5 +531,75 @@ func VerifC15StreamChunks() {
 	vassert(!extra && len(got) == 2, "nothing that was not mapped reaches the successor")
 	for _, c := range chunks {
 		vassert(c["other"] == "zz", "the predecessor's chunks are left unchanged")
+	}
+}
+
+// "identically on every run": a successor fed by a mapping plus static values receives the same input on the first,
+// second and third run of one compiled workflow, whatever mix of non-streaming and streaming calls is used.
+// In streaming execution the static values travel as a chunk of their own; struct chunks are only concatenated when a
+// concat function is registered for the type (eino's documented rule), so the target type registers one.
+type c15SV struct {
+	F int
+	G string
+	U int
+}
+
+var c15SVRegistered = false
+
+func VerifC15EveryRun() {
+	ctx := context.Background()
+	vcfg("fifo", 1)
+	vcfg("selectfirst", 1)
+	if !c15SVRegistered {
+		RegisterStreamChunkConcatFunc(func(cs []c15SV) (c15SV, error) {
+			var r c15SV
+			for _, c := range cs {
+				if c.F != 0 {
+					r.F = c.F
+				}
+				if c.G != "" {
+					r.G += c.G
+				}
+				if c.U != 0 {
+					r.U = c.U
+				}
+			}
+			return r, nil
+		})
+		c15SVRegistered = true
+	}
+	a := vsymInt("a")
+	var got []c15SV
+	wf := NewWorkflow[int, int]()
+	wf.AddLambdaNode("s", InvokableLambda(func(ctx context.Context, in int) (c15Src, error) { return c15Src{A: a, B: "b"}, nil })).AddInput(START)
+	wf.AddLambdaNode("t", InvokableLambda(func(ctx context.Context, in c15SV) (int, error) { got = append(got, in); return 1, nil })).
+		AddInput("s", MapFieldPaths(FieldPath{"A"}, FieldPath{"F"})).
+		SetStaticValue(FieldPath{"G"}, "static").SetStaticValue(FieldPath{"U"}, 7)
+	wf.End().AddInput("t")
+	r, err := wf.Compile(ctx)
+	vassert(err == nil, "workflow with a mapping and static values compiles")
+	for k := 0; k < 3; k++ {
+		var e error
+		if vchoose("stream", 2) == 1 {
+			sr, e2 := r.Stream(ctx, 0)
+			e = e2
+			if e2 == nil {
+				for i := 0; i < 4; i++ {
+					if _, e3 := sr.Recv(); e3 != nil {
+						if e3 != io.EOF {
+							e = e3
+						}
+						break
+					}
+				}
+				sr.Close()
+			}
+		} else {
+			_, e = r.Invoke(ctx, 0)
+		}
+		vassert(e == nil, "every run succeeds")
+		vassert(len(got) == k+1, "the successor runs once per run")
+		d := got[k]
+		vassert(d.F == a && d.G == "static" && d.U == 7, "every run hands the successor the mapped value and the static values")
 	}
 }
